@@ -69,3 +69,257 @@ def fft_roots(ex, st, prog):
 
 
 PYCHECKS['fft_roots'] = fft_roots
+
+
+# ---------------------------------------------------------------------------------------------
+# C13: batch detector columns. The worker of each scale is executed symbolically on one file whose bytes are
+# symbolic; every library test is an uninterpreted function of (data, parameters) (stub set lib_summaries), so the
+# value in a column is a named variable. The oracle is built from the header constant of the same source file.
+
+import re as _re
+import z3 as _z3
+RD = 'github.com/Trisia/randomness/tools/rddetector'
+RPK = 'github.com/Trisia/randomness'
+
+
+def _expected_for_label(label):
+    """label -> list of acceptable (function, extra args tuple, component) ; component 0 = P/P1, 1 = Q (or P2 ...)"""
+    m = _re.match(r'\[\s*\d+\]\s+(P1|Q1|P2|Q2|P|Q)\s+(.*)$', label.strip())
+    if not m:
+        return None
+    col, rest = m.group(1), m.group(2).strip()
+    par = dict(_re.findall(r'(\w+)=(\d+)', rest))
+    name = rest.split(' ')[0]
+    comp2 = {'P': 0, 'Q': 1}
+    comp4 = {'P1': 0, 'P2': 1, 'Q1': 2, 'Q2': 3}
+    if name == '单比特频数检测':
+        return [('MonoBitFrequencyTestBytes', 'buf', (), comp2[col]), ('MonoBitFrequencyTest', 'bits', (), comp2[col])]
+    if name == '块内频数检测':
+        return [('FrequencyWithinBlockProto', 'bits', (int(par['m']),), comp2[col])]
+    if name == '扑克检测':
+        return [('PokerTestBytes', 'buf', (int(par['m']),), comp2[col]), ('PokerProto', 'bits', (int(par['m']),), comp2[col])]
+    if name == '重叠子序列检测':
+        return [('OverlappingTemplateMatchingProto', 'bits', (int(par['m']),), comp4[col])]
+    if name == '游程总数检测':
+        return [('RunsTest', 'bits', (), comp2[col])]
+    if name == '游程分布检测':
+        return [('RunsDistributionTest', 'bits', (), comp2[col])]
+    if name.startswith('块内最大'):
+        return [('LongestRunOfOnesInABlockProto', 'bits', ('1' in name,), comp2[col])]
+    if name == '二元推导检测':
+        return [('BinaryDerivativeProto', 'bits', (int(par['k']),), comp2[col])]
+    if name == '自相关检测':
+        return [('AutocorrelationProto', 'bits', (int(par['d']),), comp2[col])]
+    if name == '矩阵秩检测':
+        return [('MatrixRankProto', 'bits', (32, 32), comp2[col])]
+    if name == '累加和检测':
+        return [('CumulativeTest', 'bits', ('前向' in rest,), comp2[col])]
+    if name == '近似熵检测':
+        return [('ApproximateEntropyProto', 'bits', (int(par['m']),), comp2[col])]
+    if name in ('线性复杂度检测', '线型复杂度检测'):
+        return [('LinearComplexityProto', 'bits', (int(par['m']),), comp2[col])]
+    if name.startswith('Maurer') or name == '通用统计检测':
+        return [('MaurerUniversalTest', 'bits', (), comp2[col])]
+    if name == '离散傅里叶检测':
+        return [('DiscreteFourierTransformTest', 'bits', (), comp2[col])]
+    return None
+
+
+def _header_const(prog, fnname):
+    """the header string constant used by main for this scale: read from main's SSA (string constants starting with 源数据)"""
+    consts = []
+    for b in prog.funcs[RD + '.main'].blocks:
+        for ins in b['instrs']:
+            stack = list(ins.values())
+            while stack:
+                v = stack.pop()
+                if isinstance(v, list):
+                    stack.extend(v)
+                elif isinstance(v, dict) and 'str' in v and v['str'].startswith('源数据') and v['str'] not in consts:
+                    consts.append(v['str'])
+    return consts
+
+
+def rddetector_columns(ex, st, prog, scale):
+    import stubs
+    from vals import FReal
+    res = []
+    hdrs = _header_const(prog, 'main')
+    # main assigns Header_2E4 / Header_1E6 / Header_1E8 in the order of its switch
+    if len(hdrs) != 3:
+        return [('three header constants found in main', False, str(len(hdrs)))]
+    # identify the header of this scale by its block-frequency parameter (m=1000 / 10000 / 100000)
+    want = {'2E4': 'm=1000,', '1E6': 'm=10000,', '1E8': 'm=100000,'}[scale]
+    cand = [h for h in hdrs if ('块内频数检测 ' + want) in h]
+    if len(cand) != 1:
+        return [('header of scale %s identified' % scale, False, str(len(cand)))]
+    hdr = cand[0]
+    labels = [x for x in hdr.strip().split(',')][1:]
+    # symbolic file content
+    import intr
+    data = intr.v_bytes(ex, None, st, [8], {})
+    ex.tmpfile_data = data
+    jobs = stubs.c_makechan(ex, None, st, {})
+    out = stubs.c_makechan(ex, None, st, {})
+    c = stubs._conc(ex)
+    c['chans'][jobs.data]['q'].append('verif-tmp-file')
+    c['chans'][jobs.data]['closed'] = True
+    fn = prog.funcs[RD + '.worker_' + scale]
+    s2, _ = ex.call_fn(fn, [jobs, out], st)
+    if s2 is None:
+        return [('worker_%s runs to completion' % scale, False, 'all paths died: ' + '; '.join(o.label for o in ex.obls if o.kind == 'panic'))]
+    st.heap, st.pc = s2.heap, s2.pc
+    for f, a in c['pending']:
+        class _Fr(object):
+            env = {}
+        ex.call_value(None, st, f, a, {})
+    c['pending'] = []
+    q = c['chans'][out.data]['q']
+    res.append(('one result row per job', len(q) == 1, '%d rows' % len(q)))
+    if len(q) != 1:
+        return res
+    R = ex.load(st, q[0], None)
+    name, P, Q = R
+    Pc, Qc = ex.slice_cells(st, P), ex.slice_cells(st, Q)
+    res.append(('row name is the base name of the file', name == 'verif-tmp-file', repr(name)))
+    ncols = len(labels)
+    res.append(('value columns == header columns (%d)' % ncols, len(Pc) + len(Qc) == ncols and len(Pc) == len(Qc), 'P %d Q %d header %d' % (len(Pc), len(Qc), ncols)))
+    # row layout written by resultWriter: P[0],Q[0],P[1],Q[1],...
+    row = []
+    for j in range(min(len(Pc), len(Qc))):
+        row += [Pc[j], Qc[j]]
+    bits = ex.call_named(None, st, RPK + '.B2bitArr', [data], {})
+    argsrc = {'buf': data, 'bits': bits}
+    # inverse map: variable name -> (function, args, component) for readable messages
+    names = {}
+    for key, vals_ in ex.sum_table.items():
+        for i, v in enumerate(vals_):
+            short = key[0].rsplit('.', 1)[-1]
+            params = tuple(k for k in key[1:] if not isinstance(k, tuple))
+            names[v.t.get_id()] = '%s%s[%d]' % (short, params, i)
+    for j, lab in enumerate(labels):
+        exp = _expected_for_label(lab)
+        if exp is None:
+            res.append(('column %d label understood: %s' % (j + 1, lab.strip()), False, 'unknown label'))
+            continue
+        if j >= len(row):
+            continue
+        got = row[j]
+        ok = False
+        want_names = []
+        for (fname, src, extra, comp) in exp:
+            h = ex.intr[RPK + '.' + fname]
+            r = h(ex, None, st, [argsrc[src]] + list(extra), {})
+            wv = r[comp]
+            want_names.append('%s%s[%d]' % (fname, extra, comp))
+            if isinstance(got, FReal) and got.t.eq(wv.t):
+                ok = True
+        gotname = names.get(got.t.get_id(), '?') if isinstance(got, FReal) else repr(got)
+        res.append(('column %d "%s" carries %s' % (j + 1, lab.strip(), ' or '.join(want_names)), ok, 'carries ' + gotname))
+    return res
+
+
+def _rd(scale):
+    return lambda ex, st, prog: rddetector_columns(ex, st, prog, scale)
+
+
+PYCHECKS['rddetector_columns_2E4'] = _rd('2E4')
+PYCHECKS['rddetector_columns_1E6'] = _rd('1E6')
+PYCHECKS['rddetector_columns_1E8'] = _rd('1E8')
+
+
+# ---------------------------------------------------------------------------------------------
+# C20: sample generator. main() and worker() of tools/rdgen are executed symbolically with the flag values given
+# (s, n, output), the file-system calls recorded, crypto/rand filling each buffer with a fresh block.
+
+RG = 'github.com/Trisia/randomness/tools/rdgen'
+
+
+def rdgen_files(ex, st, prog, s, n, output):
+    import posixpath
+    import stubs
+    from mem import Ptr, Iface, Opaque, Slice
+    fsops = {'mkdir': [], 'open': [], 'write': [], 'close': [], 'reads': 0}
+    cwd = '/cwd'
+
+    def absp(p):
+        return posixpath.normpath(p if p.startswith('/') else posixpath.join(cwd, p))
+
+    def flag_parse(e, fr, st_, args, ins):
+        e.store(st_, Ptr('g:' + RG + '.s'), s)
+        e.store(st_, Ptr('g:' + RG + '.n'), n)
+        e.store(st_, Ptr('g:' + RG + '.output'), output)
+        return None
+
+    def fp_abs(e, fr, st_, args, ins):
+        return (absp(args[0]), None)
+
+    def mkdirall(e, fr, st_, args, ins):
+        fsops['mkdir'].append(absp(args[0]))
+        return None
+
+    def openfile(e, fr, st_, args, ins):
+        path = absp(args[0])
+        fobj = Opaque('file', (path, len(fsops['open'])))
+        fsops['open'].append(path)
+        oid = e.new_obj(st_, fobj)
+        return (Ptr(oid, ()), None)
+
+    def fwrite(e, fr, st_, args, ins):
+        f, buf = args
+        fobj = e.load(st_, f, None)
+        cells = e.slice_cells(st_, buf)
+        fsops['write'].append((fobj.data[0], len(cells), tuple(id(c) if not isinstance(c, int) else c for c in cells[:4]), cells))
+        return (len(cells), None)
+
+    def fclose(e, fr, st_, args, ins):
+        if args[0] is not None:
+            fobj = e.load(st_, args[0], None)
+            fsops['close'].append(fobj.data[0])
+        return None
+
+    def rand_read(e, fr, st_, args, ins):
+        r, buf = args
+        fsops['reads'] += 1
+        k = fsops['reads']
+        for i in range(buf.len):
+            e.store(st_, Ptr(buf.obj, buf.path + (buf.off + i,)), _z3.BitVec('rnd!%d!%d' % (k, i), 8))
+        return (buf.len, None)
+
+    def fp_join(e, fr, st_, args, ins):
+        parts = e.slice_cells(st_, args[0])
+        return posixpath.normpath(posixpath.join(*parts)) if parts else ''
+
+    ex.intr.update({'path/filepath.Join': fp_join, 'flag.Parse': flag_parse, 'path/filepath.Abs': fp_abs, 'os.MkdirAll': mkdirall, 'os.OpenFile': openfile,
+                    '(*os.File).Write': fwrite, '(*os.File).Close': fclose, '#opaque.randreader.Read': rand_read,
+                    'fmt.Sprintf': __import__('intr').fmt_sprintf})
+    st.heap['g:crypto/rand.Reader'] = Iface('*rand.reader', Opaque('randreader', None))
+    fn = prog.funcs[RG + '.main']
+    s2, _ = ex.call_fn(fn, [], st)
+    res = []
+    if s2 is None:
+        return [('main runs to completion', False, '; '.join(o.label for o in ex.obls))]
+    dead = [o for o in ex.obls if o.kind == 'deadlock']
+    res.append(('main returns (WaitGroup reaches zero: every job signals Done once)', not dead, '; '.join(o.label for o in dead)))
+    outdir = absp(output)
+    want = [posixpath.join(outdir, 'random%d.bin' % i) for i in range(s)]
+    written = [w[0] for w in fsops['write']]
+    res.append(('exactly the s files random0.bin .. random(s-1).bin are written inside the requested directory %s' % outdir,
+                sorted(written) == sorted(want), 'written: %s' % sorted(set(written))[:4]))
+    res.append(('every file gets exactly n/8 bytes in one write', all(w[1] == n // 8 for w in fsops['write']) and len(written) == s,
+                str([w[1] for w in fsops['write']][:4])))
+    res.append(('every file is closed', sorted(fsops['close']) == sorted(fsops['open']), ''))
+    res.append(('the output directory is created', outdir in fsops['mkdir'], str(fsops['mkdir'])))
+    # contents: each file holds bytes obtained by a read made for that file (fresh block per file)
+    blocks = [w[2] for w in fsops['write']]
+    res.append(('file contents come from distinct reads of the random source (pairwise different unless the source repeats)',
+                len(set(blocks)) == len(blocks) and fsops['reads'] >= s, 'reads %d' % fsops['reads']))
+    return res
+
+
+def _rg(s, n, output):
+    return lambda ex, st, prog: rdgen_files(ex, st, prog, s, n, output)
+
+
+for _i, (_s, _n, _o) in enumerate([(1, 64, 'target/data'), (3, 20000, 'target/data'), (3, 64, '/abs/out'), (2, 20000, 'rel/nested/dir'), (5, 64, '/x')]):
+    PYCHECKS['rdgen_files_%d' % _i] = _rg(_s, _n, _o)
